@@ -110,9 +110,9 @@ impl From<DockerRunCommand> for Command {
             command.args([
                 "--mount",
                 &format!(
-                    "type=bind,source={},target={}",
-                    source.to_string_lossy(),
-                    target.to_string_lossy()
+                    "type=bind,{},{}",
+                    mount_csv_field(&format!("source={}", source.to_string_lossy())),
+                    mount_csv_field(&format!("target={}", target.to_string_lossy()))
                 ),
             ]);
         }
@@ -124,6 +124,16 @@ impl From<DockerRunCommand> for Command {
         }
 
         command
+    }
+}
+
+/// The value of `--mount` is parsed by Docker as a CSV record, so a field that contains
+/// a comma, a double quote or a line break has to be quoted (with inner quotes doubled).
+fn mount_csv_field(field: &str) -> String {
+    if field.contains(',') || field.contains('"') || field.contains('\n') || field.contains('\r') {
+        format!("\"{}\"", field.replace('"', "\"\""))
+    } else {
+        field.to_string()
     }
 }
 
